@@ -244,8 +244,14 @@ func (h *harness) concurrentCase(i int) {
 // that stored it and before the next one.  It also checks the order against real time.
 func linearise(rs []*rec, orc *oracle) []*rec {
 	var stores, others []*rec
+	sort.SliceStable(rs, func(a, b int) bool { return rs[a].end < rs[b].end })
+	stored := map[string]bool{}
 	for _, r := range rs {
-		if r.op.kind == "update" && r.obs.kind != "panic" && r.obs.class == "EOk" && r.obs.cosigned {
+		// an accepted update: success, cosigned, and the cosigned STH is the candidate itself;
+		// the same bytes can be stored only once (sizes grow strictly), later ones are no-ops
+		if r.op.kind == "update" && r.obs.kind != "panic" && r.obs.class == "EOk" && r.obs.cosigned && r.ri.ok &&
+			r.obs.p.sameSigned(r.ri.p) && !stored[string(r.op.raw)] {
+			stored[string(r.op.raw)] = true
 			r.store = true
 			stores = append(stores, r)
 		} else {
@@ -263,6 +269,14 @@ func linearise(rs []*rec, orc *oracle) []*rec {
 		s.epoch = i + 1
 		byRaw[string(s.op.raw)] = i + 1
 	}
+	bySTH := func(p psth) int {
+		for _, s := range stores {
+			if s.obs.p.sameSigned(p) {
+				return s.epoch
+			}
+		}
+		return -1
+	}
 	realTimeEpoch := func(r *rec) int {
 		e := 0
 		for _, s := range stores {
@@ -278,18 +292,17 @@ func linearise(rs []*rec, orc *oracle) []*rec {
 			r.epoch, r.stateless = realTimeEpoch(r), true
 		case r.op.kind == "update" && r.obs.body != nil:
 			e, ok := byRaw[string(r.obs.body)]
+			if r.obs.cosigned { // (code with C19-2: the held STH comes back cosigned)
+				e = bySTH(r.obs.p)
+				ok = e >= 0
+			}
 			if !ok {
 				orc.fail("answered with bytes that were never the held STH: %s", r.op.desc)
 				e = realTimeEpoch(r)
 			}
 			r.epoch = e
 		case r.op.kind == "getsth" && r.obs.cosigned:
-			r.epoch = -1
-			for _, s := range stores {
-				if s.obs.p.sameSigned(r.obs.p) {
-					r.epoch = s.epoch
-				}
-			}
+			r.epoch = bySTH(r.obs.p)
 			if r.epoch < 0 {
 				orc.fail("GetSTH returned an STH that was never stored: %s", sthKey(r.obs.p))
 				r.epoch = realTimeEpoch(r)
